@@ -50,12 +50,14 @@ Proof. intros w a. unfold wrapu. rewrite N2Z.inj_mod, N2Z.inj_pow. reflexivity. 
 (* halfFloatToFloatBits *)
 
 (* more fuel does not change an answer *)
-Lemma half_loop_mono : forall f k m e r,
-  halfFloatToFloatBits_loop1 f m e = Ok r -> halfFloatToFloatBits_loop1 (f + k) m e = Ok r.
+(* proved without naming the loop condition or the order of the two state variables (the translator lists them
+   in declaration order: swapping the independent initialisations of m and e swaps the arguments) *)
+Lemma half_loop_mono : forall f k a b r,
+  halfFloatToFloatBits_loop1 f a b = Ok r -> halfFloatToFloatBits_loop1 (f + k) a b = Ok r.
 Proof.
-  induction f as [| f IH]; intros k m e r H; [discriminate |].
-  cbn [halfFloatToFloatBits_loop1 Nat.add] in *.
-  destruct (Z.land m 1024 =? 0); [apply IH; exact H | exact H].
+  induction f as [| f IH]; intros k a b r H; [discriminate |].
+  cbn [halfFloatToFloatBits_loop1 Nat.add] in *. revert H.
+  match goal with |- context [if ?c then _ else _] => destruct c end; intro H; [apply IH; exact H | exact H].
 Qed.
 
 Lemma half_mono : forall f k h r,
@@ -218,12 +220,16 @@ Proof.
   rewrite <- Z.lxor_lor by exact Hl. symmetry. apply Z.add_nocarry_lxor. exact Hl.
 Qed.
 
+(* the same with the operands of | the other way round (`hi<<8 | lo` or `lo | hi<<8`) *)
+Lemma lor_shl_add_c : forall x y k, 0 <= k -> 0 <= x < 2 ^ k -> 0 <= y -> Z.lor (shl y k) x = x + y * 2 ^ k.
+Proof. intros x y k Hk Hx Hy. rewrite Z.lor_comm. apply lor_shl_add; assumption. Qed.
+
 Lemma get16_tie : forall a b, (a < 256)%N -> (b < 256)%N ->
   bigenHelper_Uint16 (map Z.of_N [a; b]) = Z.of_N (be_get [a; b]).
 Proof.
   intros a b Ha Hb. unfold bigenHelper_Uint16, be_get. cbv zeta. cbn [map nth fold_left].
   rewrite wrapu_id by (unfold in_u, shl; rewrite Z.shiftl_mul_pow2 by lia; lia).
-  rewrite lor_shl_add by lia. lia.
+  first [rewrite lor_shl_add by lia | rewrite lor_shl_add_c by lia]. lia.
 Qed.
 
 Lemma get32_tie : forall a b c d, (a < 256)%N -> (b < 256)%N -> (c < 256)%N -> (d < 256)%N ->
